@@ -39,7 +39,8 @@ func newDownloaderPP(
 	processor *processor,
 	rh *sync.RetryHandler,
 	blockFinality *big.Int,
-	waitForNewBlocksPeriod time.Duration) (*downloaderPP, error) {
+	waitForNewBlocksPeriod time.Duration,
+	finalizedBlockType *big.Int) (*downloaderPP, error) {
 	l2GERManager, err := globalexitrootmanagerl2sovereignchain.NewGlobalexitrootmanagerl2sovereignchain(
 		l2GERAddr, l2Client)
 	if err != nil {
@@ -59,7 +60,7 @@ func newDownloaderPP(
 	evmDownloader := sync.NewEVMDownloaderImplementation(
 		"lastgersync", l2Client, blockFinality,
 		waitForNewBlocksPeriod, appender, []common.Address{l2GERAddr},
-		rh, nil)
+		rh, finalizedBlockType)
 
 	d.EVMDownloaderImplementation = evmDownloader
 
@@ -79,6 +80,10 @@ func (d *downloaderPP) RuntimeData(ctx context.Context) (sync.RuntimeData, error
 }
 
 func (d *downloaderPP) Download(ctx context.Context, fromBlock uint64, downloadedCh chan sync.EVMBlock) {
+	lastSeenBlock := uint64(0)
+	if fromBlock > 0 {
+		lastSeenBlock = fromBlock - 1
+	}
 	for {
 		select {
 		case <-ctx.Done():
@@ -89,21 +94,32 @@ func (d *downloaderPP) Download(ctx context.Context, fromBlock uint64, downloade
 		default:
 		}
 
-		// Wait until there is at least one block that has not been fetched yet (fromBlock is the first of them)
-		lastSeenBlock := uint64(0)
-		if fromBlock > 0 {
-			lastSeenBlock = fromBlock - 1
-		}
+		// Wait until there is at least one block that has not been seen yet
 		toBlock := d.WaitForNewBlocks(ctx, lastSeenBlock)
-		if toBlock < fromBlock {
+		if toBlock < fromBlock || toBlock <= lastSeenBlock {
 			// no new blocks (the context has been canceled)
 			continue
 		}
-		// Fetch the events of every block produced since the previous iteration, not only the newest one
-		for _, block := range d.GetEventsByBlockRange(ctx, fromBlock, toBlock) {
+		lastSeenBlock = toBlock
+		// Fetch the events of every block that has not been handed over or finalized yet, not only the newest one
+		blocks := d.GetEventsByBlockRange(ctx, fromBlock, toBlock)
+		for _, block := range blocks {
 			downloadedCh <- *block
 		}
-		fromBlock = toBlock + 1
+		// Only the blocks that are handed over are tracked by the reorg detector, and a block above the finalized one
+		// can still be replaced by a block that does carry events: do not move past the blocks that have neither been
+		// handed over nor finalized, they are fetched again along with the next new block
+		if len(blocks) > 0 {
+			fromBlock = blocks[len(blocks)-1].Num + 1
+		}
+		lastFinalizedBlock, err := d.GetLastFinalizedBlock(ctx)
+		if err != nil {
+			log.Errorf("error getting last finalized block: %v", err)
+			continue
+		}
+		if finalized := min(lastFinalizedBlock.Number.Uint64(), toBlock); finalized >= fromBlock {
+			fromBlock = finalized + 1
+		}
 	}
 }
 
